@@ -1,18 +1,15 @@
 // Exact arithmetic for the oracles: scaled decimals with wide integers (never rust_decimal, which is
 // what the contract under test computes with).
-use cosmwasm_std::{Uint256, Uint512};
+use crate::big::Big;
 use std::cmp::Ordering;
 
-pub type W = Uint512;
+pub type W = Big;
 
 pub fn w(n: u128) -> W {
-    W::from(n)
+    Big::from_u128(n)
 }
 pub fn wi(n: u128) -> W {
-    W::from(n)
-}
-pub fn w256(n: Uint256) -> W {
-    W::from(n)
+    Big::from_u128(n)
 }
 pub fn pow10(e: u32) -> W {
     let mut r = w(1);
@@ -23,13 +20,7 @@ pub fn pow10(e: u32) -> W {
     r
 }
 pub fn to_u128(x: W) -> Option<u128> {
-    let b = x.to_be_bytes();
-    if b[..48].iter().any(|v| *v != 0) {
-        return None;
-    }
-    let mut a = [0u8; 16];
-    a.copy_from_slice(&b[48..]);
-    Some(u128::from_be_bytes(a))
+    x.to_u128()
 }
 
 /// How a decimal string is classified for the purpose of judging accept/refuse.
@@ -45,7 +36,7 @@ pub enum Form {
 /// value = mant / 10^scale (non-negative)
 #[derive(Clone, Debug, PartialEq, Eq)]
 pub struct Dec {
-    pub mant: Uint256,
+    pub mant: Big,
     pub scale: u32,
     pub form: Form,
 }
@@ -89,7 +80,7 @@ pub fn parse_dec(s: &str) -> Option<Dec> {
     if int_sig + f.len() > 28 {
         gray = true;
     }
-    let mant = if sig.is_empty() { Uint256::zero() } else { sig.parse::<Uint256>().ok()? };
+    let mant = if sig.is_empty() { Big::ZERO } else { Big::parse_dec(sig)? };
     Some(Dec { mant, scale: f.len() as u32, form: if gray { Form::Gray } else { Form::Plain } })
 }
 
@@ -98,7 +89,7 @@ impl Dec {
         self.mant.is_zero()
     }
     pub fn mantw(&self) -> W {
-        w256(self.mant)
+        self.mant
     }
     /// self * n when that is an integer
     pub fn mul_int(&self, n: u128) -> Option<u128> {
